@@ -15,6 +15,7 @@ cleanup() { git -C /repo worktree remove --force $WT 2>/dev/null; rm -rf $WT; }
 trap cleanup EXIT
 DEMODIR=$(jq -r '.demo_dir // "."' $SRC/meta.json); DEMOCMD=$(jq -r .demo_cmd $SRC/meta.json | sed 's/[[:space:]]\+(.*$//')
 MODS=${@:-$(cd $WT && git apply --numstat $SRC/patch.diff | awk '{print $3}' | while read f; do d=$(dirname $f); while [ "$d" != "." ] && [ ! -f $WT/$d/go.mod ]; do d=$(dirname $d); done; echo ./$d | sed 's#^\./\.$#.#'; done | sort -u)}
+DEMOCMD=$(echo "$DEMOCMD" | sed "s#^cd \(\./\)\?$DEMODIR/\? *&& *##")
 LOG=/tmp/cf/$ID-$V.log; : > $LOG
 export GOFLAGS=-mod=mod GOPROXY=off
 cp $SRC/demo_test.go $WT/$DEMODIR/zz_seeded_demo_test.go
